@@ -250,8 +250,10 @@ func (s *sampler[R]) Next() (int, int) {
 		s.i--
 		s.first = false
 	}
-	skip := math.Floor(math.Log(s.r.Float64()) / math.Log(1-s.w))
-	if math.IsInf(skip, 0) || math.IsNaN(skip) {
+	// Log1p rather than Log(1-w): once w is below 2^-53, 1-w rounds to 1 and every skip would be
+	// infinite, so that no index past about k*2^53 could ever be chosen.
+	skip := math.Floor(math.Log(s.r.Float64()) / math.Log1p(-s.w))
+	if math.IsInf(skip, 0) || math.IsNaN(skip) || skip >= float64(math.MaxInt-s.i) {
 		return math.MaxInt, 0
 	}
 	s.i += int(skip) + 1
